@@ -10,6 +10,21 @@ serialization error is one of these — never a sibling, never merely an ancesto
 
 Path conventions (as the crate assembles them): root `$`; struct child `{path}.{name}` (raw name); list / map /
 union children through `ChildName` (empty name ⇒ `<empty>`); dictionary `.key` / `.value`.
+
+Dictionary columns (reading corrected 2026-09-29).  C18 names `dictionary` among the kinds of PARENT of the innermost
+failing field: the key and the value child of a dictionary column are positions of the schema (`{path}.key` with the key
+type, `{path}.value` with the value type), and while the dictionary builder hands a string to its value builder (or an
+index to its key builder) that child IS the innermost field being processed.  So
+* a string the VALUE type cannot take (a date / time / timestamp / duration / decimal value type that cannot parse it, a
+  value type that takes no strings at all) is blamed on `{path}.value` — for a nested dictionary on ITS value child, and
+  so on (`blameDictStr`);
+* what the dictionary builder's own code refuses is blamed on the dictionary `{path}`: a null for a non-nullable
+  dictionary field (repo fix ca6f255), a call the dictionary builder does not answer (bytes, sequences, records, maps,
+  variants with data);
+* capacity is no matter of this specification (the mapping is defined): the crate reports more distinct values than the
+  key type holds under `{path}.key` with the key type (`Dictionary(Int8, Utf8)`, the 129th distinct string:
+  `field: "$.d.key"`, `data_type: "Int8"` — the key child is the innermost field being processed then) and a capacity
+  error of the value builder under `{path}.value`; `Props.C18.C18_capacity_blame` states both for the model.
 -/
 namespace SaModel.Spec
 open SaModel SaModel.Build
@@ -31,6 +46,23 @@ def blameMissing (path : String) (fs : List Field) (keys : List String) : List S
   fs.filterMap fun f =>
     if f.nullable && !keys.contains f.name && !(interpNull f.dataType f.nullable f.metadata).isOk
     then some (path ++ "." ++ f.name) else none
+
+/-- the position that takes the strings of a dictionary column whose value child sits at `path` (type `vdt`): that
+child, or for a nested dictionary the value child below it -/
+def blameDictStr (path : String) : DataType → String
+  | .dictionary _ v => blameDictStr (path ++ ".value") v
+  | _ => path
+
+/-- a scalar call (`serialize_bool` … `serialize_str`, `serialize_unit_variant` outside unions, `None` / unit) the
+column at `path` cannot represent: the column itself — except that a dictionary column hands every scalar with a string
+form on to its value child, which is then the innermost field being processed -/
+def blameScalarAt (ext : Ext) (path : String) (dt : DataType) (x : SVal) : List String :=
+  match dt with
+  | .dictionary _ v =>
+    match scalarToString ext x with
+    | some _ => [blameDictStr (path ++ ".value") v]
+    | none => [path]
+  | _ => [path]
 
 mutual
 def blameDT (ext : Ext) (path : String) (dt : DataType) (nullable : Bool) (md : Metadata) : SVal → List String
@@ -164,13 +196,15 @@ def blameDT (ext : Ext) (path : String) (dt : DataType) (nullable : Bool) (md : 
       match fs.toList[i]? with
       | some (_, .mk cn _ _ _) => [path ++ "." ++ childName cn]      -- the variant's column refuses `unit`
       | none => [path]
-    | _ => [path]
+    | _ => blameScalarAt ext path dt (.unitVariant n i vn)    -- string columns take the variant's name
   | .bytes b =>
     if (interpDT ext dt nullable md (.bytes b)).isOk then [] else
     match dt with
-    | .list (.mk cn _ _ _) | .largeList (.mk cn _ _ _) => [path ++ "." ++ childName cn, path]
+    -- `ListBuilder::serialize_bytes`: every byte is an element, presented as `serialize_u8`
+    | .list (.mk cn cdt _ _) | .largeList (.mk cn cdt _ _) =>
+      blameScalarAt ext (path ++ "." ++ childName cn) cdt (.int .u8 0) ++ [path]
     | _ => [path]
-  | x => if (interpDT ext dt nullable md x).isOk then [] else [path]
+  | x => if (interpDT ext dt nullable md x).isOk then [] else blameScalarAt ext path dt x
 
 def blameAll (ext : Ext) (path : String) (dt : DataType) (nullable : Bool) (md : Metadata) : SVals → List String
   | .nil => []
